@@ -120,19 +120,28 @@ def gen_case(rnd):
     lines.append(f'{"async " if is_async else ""}def g({sig}):')
     rets = [rnd.choice(LITS) for _ in range(rnd.randint(1, 3))]
     is_gen = rnd.random() < .25 and not examples and not ensures and not is_async       # a generator: every yielded literal is judged like a returned one
+    # a generator that only delegates (`yield from`): the literals it returns are not validated by the runtime
+    delegating = (not is_gen) and rnd.random() < .08 and not examples and not ensures and not is_async
     kw = 'yield' if is_gen else 'return'
     for i, v in enumerate(rets):
         if i + 1 < len(rets) and rnd.random() < .2:
             # inside a try body: still a value the function returns / yields
             lines += ['    try:', f'        {kw} {v}', '    except ValueError:', '        pass']
-            if posts: items.append({'kind': 'post', 'row': len(lines) - 2, 'value': v, 'validators': posts})
+            if posts and not delegating: items.append({'kind': 'post', 'row': len(lines) - 2, 'value': v, 'validators': posts})
             continue
         if i + 1 < len(rets):
             lines.append(f'    if a == {i}:'); lines.append(f'        {kw} {v}')
         else:
             lines.append(f'    {kw} {v}')
-        if posts: items.append({'kind': 'post', 'row': len(lines), 'value': v, 'validators': posts})
+        if posts and not delegating: items.append({'kind': 'post', 'row': len(lines), 'value': v, 'validators': posts})
     quiet = []
+    if delegating:
+        # every `return <literal>` written above is a quiet row now; the delegation goes first in the body
+        first = next(i for i, l in enumerate(lines) if l.startswith(('def g(', 'async def g('))) + 1
+        lines.insert(first, f'    yield from ({rnd.choice(LITS)},)')
+        for it in items:
+            if it['row'] > first: it['row'] += 1
+        quiet = [i + 1 for i, l in enumerate(lines) if i >= first and l.strip().startswith('return ')] + [first + 1]
     if rnd.random() < .2:
         # a nested function: its returns are not returns of g (defining it returns nothing); placed before the last return of g
         at = len(lines) - 1
@@ -140,6 +149,7 @@ def gen_case(rnd):
         last = lines[at:]; del lines[at:]
         for it in items:
             if it['kind'] == 'post' and it['row'] > at: it['row'] += len(nested)
+        quiet = [q + len(nested) if q > at else q for q in quiet]
         lines += nested; quiet.append(len(lines)); lines += last
     if is_gen and rnd.random() < .5:
         # the value a generator returns is not validated by the runtime (only what it yields)
